@@ -96,6 +96,11 @@ func shallowOld(st *bState) *bState {
 }
 
 func (e *bEngine) applyContract(st *bState, con *Contract, callee *ssa.Function, args []bVal, at string) bVal {
+	if con.Trusted {
+		e.note("ASSUMED (trusted leaf, contract applied not verified): " + shortPkg(frameKeyOrName(callee)))
+	} else {
+		e.note("callee replaced by its contract (verified under its own name): " + shortPkg(frameKeyOrName(callee)))
+	}
 	bind := map[string]bVal{}
 	for i, n := range paramNamesSSA(callee) {
 		if i < len(args) {
@@ -1283,6 +1288,7 @@ func (e *bEngine) unknownCall(st *bState, what, at string) {
 }
 
 func (e *bEngine) applyIfaceContract(st *bState, con *Contract, key string, m *types.Func, args []bVal, at string) bVal {
+	e.note("ASSUMED (interface method, contract applied not verified): " + shortPkg(key))
 	// parameter names: receiver is called "this", the others come from the method signature
 	sig := m.Type().(*types.Signature)
 	bind := map[string]bVal{"this": args[0]}
